@@ -67,6 +67,7 @@ type Recorder struct {
 	W       *hx.TraceWriter
 	lastCfg string
 	seen    map[string]seenTx // tx hash -> where it was delivered before
+	effected map[string]bool  // signed content (abstract tx without dup) -> passed the ante handler before
 	Full    bool              // log the core state on every event (default: yes)
 	// Focus, when non-empty, lists the core-state fields logged in full; all other
 	// fields are folded into "rest" (a digest), so "nothing else changed" is still
@@ -80,7 +81,7 @@ type seenTx struct {
 }
 
 func NewRecorder(s *Sim, w *hx.TraceWriter) *Recorder {
-	return &Recorder{S: s, W: w, seen: map[string]seenTx{}, Full: true}
+	return &Recorder{S: s, W: w, seen: map[string]seenTx{}, effected: map[string]bool{}, Full: true}
 }
 
 func (r *Recorder) state(ev map[string]interface{}) {
@@ -111,6 +112,7 @@ func (r *Recorder) state(ev map[string]interface{}) {
 func (r *Recorder) Reset(label string) {
 	r.lastCfg = ""
 	r.seen = map[string]seenTx{}
+	r.effected = map[string]bool{}
 	ev := map[string]interface{}{"ev": "reset", "label": label}
 	r.state(ev)
 	r.W.Emit(ev)
@@ -169,6 +171,18 @@ func (r *Recorder) DeliverTx(tx []byte, abs map[string]interface{}) abci.Respons
 	}
 	if _, ok := a["dup"]; !ok {
 		a["dup"] = dup
+	}
+	// identity of the signed content: the abstract record without the submission class
+	ck := map[string]interface{}{}
+	for k, v := range abs {
+		if k != "dup" {
+			ck[k] = v
+		}
+	}
+	cb, _ := json.Marshal(ck)
+	a["priorEffect"] = r.effected[string(cb)]
+	if !anteFail {
+		r.effected[string(cb)] = true
 	}
 	ev := map[string]interface{}{"ev": "DeliverTx", "tx": a,
 		"res": map[string]interface{}{"code": res.Code, "codespace": res.Codespace}}
